@@ -504,7 +504,25 @@ int cmdWorker(int argc, char** argv) {
     steps += r.steps;
     simtime += r.simtime_us;
     for (auto& e : r.counters) counters[e.first] += e.second;
-    for (auto& s : r.incidental) incidental[s]++;
+    for (auto& s : r.incidental) {
+      // keep the first plan in which another property's clause fired: they do not change this check's verdict, but they have
+      // pointed at genuine defects more than once (I <clause> <path> lines; the supervisor copies them next to the evidence)
+      if (incidental[s]++ == 0) {
+        Json p2 = curPlan;
+        Json d = Json::arr();
+        for (auto x : r.decisions) d.push(Json::num(x));
+        p2.set("decisions", d);
+        p2.set("incidental_clause", s);
+        std::string clean = s;
+        for (auto& ch : clean)
+          if (ch == ':' || ch == '/' || ch == ' ') ch = '_';
+        std::string path = dir + "/incidental-" + wid + "-" + clean + "-" + std::to_string(curSeed) + ".json";
+        if (util::writeFile(path, p2.dump(1))) {
+          printf("I %s %s\n", s.c_str(), path.c_str());
+          fflush(stdout);
+        }
+      }
+    }
     if (r.nontrivial) {
       nontrivial++;
       util::Hasher h;
